@@ -47,10 +47,15 @@ WORKERS = {"quick": 1, "thorough": 14}
 
 def gen_cases(ctx):
     rng = ctx.rng
-    for i in range(ctx.scale(6000, 900000)):
+    for i in range(ctx.scale(5000, 900000)):
         c = gen_history_case(rng, max_jobs=rng.choice([2, 3, 4, 5]), max_machines=rng.choice([2, 3, 4]))
         c["kind"] = "interleaving"
         yield c
+    for i in range(ctx.scale(30, 3000)):
+        # the observers the multi-instance environment manages for the user: a reward observer
+        # swapped in through the env's setter is notified once per step, like everybody else
+        yield {"kind": "multi_env_observers", "seed": rng.randrange(2**31), "instance": {"cls": "generated"},
+               "filter": None, "policy": "random_available"}
 
 
 def make_classes():
@@ -110,7 +115,56 @@ def warm(d):
     list(d.uncompleted_operations())
 
 
+def run_multi_env_observers(ctx, case):
+    from job_shop_lib.dispatching import DispatcherObserver, DispatcherObserverConfig
+    from job_shop_lib.generation import GeneralInstanceGenerator
+    from job_shop_lib.reinforcement_learning import IdleTimeReward, MakespanReward, MultiJobShopGraphEnv
+    rng = random.Random(case["seed"])
+    g = GeneralInstanceGenerator(num_jobs=(2, 4), num_machines=(2, 3), duration_range=(1, 9),
+                                 seed=case["seed"] % 100000)
+    env = MultiJobShopGraphEnv(g, [DispatcherObserverConfig("is_ready")])
+
+    class Count(DispatcherObserver):
+        _is_singleton = False
+        n = 0
+
+        def update(self, scheduled_operation):
+            self.n += 1
+
+        def reset(self):
+            self.n = 0
+    for ep in range(2):
+        env.reset()
+        probe = Count(env.dispatcher)
+        new_reward = None
+        if ep == 1 or rng.random() < 0.5:
+            new_reward = IdleTimeReward(env.dispatcher)      # built the ordinary, self-subscribing way
+            env.reward_function = new_reward
+            ctx.count("reward_observer_swapped_through_the_env_setter")
+        steps = 0
+        done = False
+        while not done:
+            op = rng.choice(env.dispatcher.available_operations())
+            done = env.step((op.job_id, rng.choice(op.machines)))[2]
+            steps += 1
+            subs = env.dispatcher.subscribers
+            ctx.count("update_events_checked")
+            w = {"episode": ep, "steps": steps, "subscribers": [type(x).__name__ for x in subs]}
+            if len({id(x) for x in subs}) != len(subs):
+                ctx.violation("c10_observer_subscribed_twice", w)
+                return
+            if probe.n != steps or (new_reward is not None and len(new_reward.rewards) != steps):
+                ctx.violation("c10_observer_not_notified_exactly_once_per_dispatch",
+                              dict(w, probe=probe.n,
+                                   reward_events=None if new_reward is None else len(new_reward.rewards)))
+                return
+    ctx.count("multi_env_observer_runs")
+    ctx.note_case(case, True, fingerprint="multi-observers:%s" % case["seed"])
+
+
 def run_case(ctx, case):
+    if case.get("kind") == "multi_env_observers":
+        return run_multi_env_observers(ctx, case)
     from job_shop_lib.dispatching import HistoryObserver, UnscheduledOperationsObserver
     from job_shop_lib.dispatching.feature_observers import IsReadyObserver, DurationObserver, FeatureType
     from job_shop_lib.exceptions import ValidationError
@@ -246,7 +300,8 @@ def run_case(ctx, case):
             script.append(("unsub", labels[id(ob)])); ctx.count("unsubscribes"); disturb += 1
         elif ev < 0.24:
             # built-in observers mixed in (subscribed silently by their constructors)
-            kind = rng.choice(["unsched", "isready", "duration", "remaining", "is_completed_jobs"])
+            kind = rng.choice(["unsched", "isready", "duration", "remaining", "is_completed_jobs",
+                               "is_completed_all", "updater"])
             try:
                 if kind == "unsched":
                     ob = UnscheduledOperationsObserver(d)
@@ -258,11 +313,30 @@ def run_case(ctx, case):
                 elif kind == "is_completed_jobs":
                     from job_shop_lib.dispatching.feature_observers import IsCompletedObserver
                     ob = IsCompletedObserver(d, feature_types=[FeatureType.JOBS])
+                elif kind == "is_completed_all":
+                    from job_shop_lib.dispatching.feature_observers import IsCompletedObserver
+                    ob = IsCompletedObserver(d)
+                elif kind == "updater":
+                    if any(type(x).__name__ == "ResidualGraphUpdater" for x in subs):
+                        continue
+                    from job_shop_lib.graphs import build_agent_task_graph
+                    from job_shop_lib.graphs.graph_updaters import ResidualGraphUpdater
+                    ob = ResidualGraphUpdater(d, build_agent_task_graph(run.instance))
                 else:
                     ob = DurationObserver(d, feature_types=[FeatureType.JOBS])
-                # the constructor may have brought helper observers along (subscribed before it)
+                # the constructor may have brought helper observers along (subscribed before it) -
+                # but create-or-get hands out a subscribed observer that already matches
                 for x in d.subscribers:
                     if all(x is not y for y in subs):
+                        def covers0(y, x=x):
+                            fy, fx = getattr(y, "features", None), getattr(x, "features", None)
+                            return type(y) is type(x) and isinstance(fy, dict) and isinstance(fx, dict) \
+                                and set(fx) <= set(fy)
+                        if x is not ob and any(covers0(y) for y in subs):
+                            ctx.violation("c10_create_or_get_did_not_return_existing",
+                                          {"which": "helper of " + kind, "type": type(x).__name__,
+                                           "script": script})
+                            return
                         subs.append(x); labels[id(x)] = type(x).__name__
                 script.append(("builtin", kind))
             except ValidationError:
